@@ -315,6 +315,50 @@ inductive Handler
   | bad                   -- a handler returned an error (framing event where none may occur)
 deriving DecidableEq, Repr
 
+/-- what a subscriber's token may read (`acl.Authorizer` built from one small policy):
+    everything, nothing, `service "<n>" {read}` for some names (+ every node), or
+    `node "<n>" {read}` for some nodes (+ every service) -/
+inductive Authz
+  | all
+  | none
+  | svcs (names : List String)
+  | nodes (names : List String)
+deriving DecidableEq, Repr
+
+def Authz.svcOk : Authz → String → Bool
+  | .all, _ => true
+  | .none, _ => false
+  | .svcs l, n => l.contains n
+  | .nodes _, _ => true
+
+def Authz.nodeOk : Authz → String → Bool
+  | .all, _ => true
+  | .none, _ => false
+  | .svcs _, _ => true
+  | .nodes l, n => l.contains n
+
+/-- `Payload.HasReadPermission`: `CheckServiceNode.CanRead` (node:read on the node and
+    service:read on the service name) / `ServiceConfigEntry.CanRead` (service:read on the name) -/
+def Authz.entryOk (a : Authz) (t : Topic) (id : Id) (v : Val) : Bool :=
+  match t with
+  | .cfg => a.svcOk v.name
+  | _ => a.nodeOk id.1 && a.svcOk v.name
+
+def Authz.allowed (a : Authz) (e : Ev) : Bool := a.entryOk e.key.topic e.id e.val
+
+/-- the direct query result after ACL filtering (aclfilter semantics) -/
+def fview (a : Authz) (t : Topic) (v : View) : View := v.filter fun p => a.entryOk t p.1 p.2
+
+/-- what `Subscription.Next` + the ACL filter of the subscribe loop hand to the handler: a pure
+    function of (authorizer, shared item); `none`: everything in the item was filtered out and the
+    loop continues with the next item. The shared item itself is never modified. -/
+def visible (a : Authz) (t : Topic) : Step → Option Step
+  | .nstf => some .nstf
+  | .eos i post => some (.eos i (fview a t post))
+  | .item it =>
+      let evs := it.evs.filter a.allowed
+      if evs.isEmpty ∧ ¬ it.evs.isEmpty then none else some (.item ⟨it.idx, evs, fview a t it.post⟩)
+
 /-- client side: `materializer` (view, index) + the current handler of `subscribeOnce` -/
 structure Mat where
   h     : Handler
@@ -329,6 +373,7 @@ structure Client where
   key   : Key
   tok   : String
   rpc   : Bool            -- RPCMaterializer (resets on Aborted) vs LocalMaterializer
+  authz : Authz           -- what the subscriber's token may read
   sub   : SubState
   inbox : List Step
   m     : Mat
@@ -359,7 +404,7 @@ deriving DecidableEq, Repr
 def Sys.init (ttl : Bool) : Sys := ⟨Cat.empty, [], [], [], ttl, [], 1⟩
 
 inductive Act
-  | client (id : Nat) (key : Key) (tok : String) (rpc : Bool)
+  | client (id : Nat) (key : Key) (tok : String) (rpc : Bool) (authz : Authz)
   | commit (idx : Nat) (w : Write)
   | publishOne
   | subscribe (id : Nat)
@@ -507,6 +552,7 @@ inductive NextRes
   | nosub
   | block
   | err (s : SubState)
+  | skip (st : Step)                 -- the whole item was filtered out by the subscriber's ACL
   | ev (st : Step) (c : Client)
 
 /-- `handle` with the duplicate-event guard of internal/storage/inmem/watch.go (`Index ≤ last ⇒
@@ -535,7 +581,10 @@ def nextWith (hd : Mat → Step → Mat) (y : Sys) (id : Nat) : Sys × NextRes :
     | .opened =>
       match c.inbox with
       | [] => (y, .block)
-      | st :: rest =>
+      | st0 :: rest =>
+          match visible c.authz c.key.topic st0 with
+          | none => (setClient y { c with inbox := rest }, .skip st0)
+          | some st =>
           let c1 := { c with inbox := rest, m := hd c.m st }
           let c2 := match stepIdx st with
             | some i => { c1 with lastDelivered := i, mono := c1.mono && decide (c.lastDelivered ≤ i),
@@ -568,12 +617,12 @@ def restore (y : Sys) (c : Cat) : Sys :=
   { y with cat := c, cache := [],
            clients := y.clients.map fun d => if d.sub = .opened then { d with sub := .force } else d }
 
-def addClient (y : Sys) (id : Nat) (key : Key) (tok : String) (rpc : Bool) : Sys :=
+def addClient (y : Sys) (id : Nat) (key : Key) (tok : String) (rpc : Bool) (authz : Authz := .all) : Sys :=
   if (getClient y id).isSome then y else
-  { y with clients := y.clients ++ [⟨id, key, tok, rpc, .none, [], ⟨.snap [], [], 0, []⟩, 0, 0, true⟩] }
+  { y with clients := y.clients ++ [⟨id, key, tok, rpc, authz, .none, [], ⟨.snap [], [], 0, []⟩, 0, 0, true⟩] }
 
 def step (y : Sys) : Act → Sys
-  | .client id k t r => addClient y id k t r
+  | .client id k t r a => addClient y id k t r a
   | .commit idx w => commit y idx w
   | .publishOne => publishOne y
   | .subscribe id => subscribe y id
